@@ -40,7 +40,7 @@ static uint64_t rp_arr_u64(const char *name, int k, uint64_t dflt)
     const char *s = rp_str(name); int i = 0; if (!s) return dflt;
     while (*s && *s != '[') ++s; if (!*s) return dflt; ++s;
     for (;;) { while (*s == ' ' || *s == '"') ++s; if (!*s || *s == ']') return dflt;
-        if (i == k) return (*s == '-') ? (uint64_t)strtoll(s, 0, 0) : strtoull(s, 0, 0);
+        if (i == k) { if (!strncmp(s, "TRUE", 4) || !strncmp(s, "true", 4)) return 1; return (*s == '-') ? (uint64_t)strtoll(s, 0, 0) : strtoull(s, 0, 0); }
         while (*s && *s != ',' && *s != ']') ++s; if (*s == ',') ++s; ++i; }
 }
 static int rp_fail(const char *what) { printf("REPLAY CONFIRMED: %s\n", what); return 1; }
